@@ -52,6 +52,19 @@ def c03(tier, seed):
     return jobs
 
 
+def c20(tier, seed):
+    q = tier == "quick"
+    jobs = []
+    ms = ["userset", "ttu", "exclusion", "intersection", "userset_flat", "condition"] if q else MODELS_ALL
+    for m in ms:
+        for cancel in (1, 2):
+            jobs.append(J(G, "VerifE01Check", model=m, maxcands=12 if q else 16, invalid=0, subjects="min" if q else "all", cancel=cancel,
+                          timeout_ms=60000, unwind=64, max_paths=6000 if q else 100000))
+        # un-cancelled runs: every path must end with all engine goroutines terminated
+        jobs.append(J(G, "VerifE01Check", model=m, maxcands=10, seed=(seed + 4) % 7, breadth=1, timeout_ms=60000, unwind=64, max_paths=6000 if q else 100000))
+    return jobs
+
+
 def c04(tier, seed):
     q = tier == "quick"
     jobs = []
@@ -86,6 +99,13 @@ SPEC = {
         "level_note": "bounds: 10 (quick) / 17 models, 2 objects per type, <= 12/16 candidates, all subjects; strategy choice per plan key is a solver variable; the fallback decision of CheckQueryV2 itself (IsV2CheckTerminalError) is not exercised; one canonical fair goroutine schedule per path",
         "assumptions": _E_ASSUME,
         "outside": ["CheckQueryV2's fallback plumbing and throttling", "the v2 query cache (Cache = noop here)", "contextual tuples through the v2 request indexes"],
+    },
+    "C20": {
+        "jobs": c20,
+        "level_text": "termination and resource release of the default Check engine within the bounds of C01: on every explored path (every store content, request and strategy choice) the call returns, no goroutine of the engine is left blocked when the harness ends and no deadlock occurs — with the request context live, cancelled before the call, and cancelled concurrently; a decision returned despite cancellation must still equal the reference semantics. Deadlock and leaked-goroutine detection are built-in obligations of the symbolic executor's goroutine model.",
+        "level_note": "bounds as C01 (6 models quick / 17 thorough, <= 12/16 candidates); one canonical fair schedule per path (the concurrent cancel runs when the caller first blocks); wall-clock deadlines, timers and memory growth are not representable (timers never fire); ListObjects/ListUsers termination is covered only as far as their own engine harnesses (C05/C06) run",
+        "assumptions": _E_ASSUME,
+        "outside": ["deadline-based termination (timers are not modelled)", "large fan-out / memory growth", "the ListObjects pipeline (its cycle teardown is C21)", "other schedules than the canonical one"],
     },
     "C04": {
         "jobs": c04,
